@@ -130,6 +130,7 @@ package pdnode_coord
 //@   ensures in(result0.name, leaders) && (forall e int :: 0 <= e && e < len(exclude) ==> exclude[e] != result0.name) && sameSlice(result0.leaderPids, leaders[result0.name]) && sameSlice(result0.replicaPids, replicas[result0.name])
 //@ func fillPartitionMapV2(ns string, partitionNum int, replica int, oldPartitionNodes [][]string, sortedNodes SortableStrings) [][]string
 //@   opt autoloops
+//@   opt entryrefs
 //@   requires 0 <= partitionNum && partitionNum < 1048576 && 0 <= replica && replica < 1048576
 //@   requires forall p int, a int, b int :: 0 <= p && p < len(oldPartitionNodes) && 0 <= a && a < b && b < len(oldPartitionNodes[p]) ==> oldPartitionNodes[p][a] != oldPartitionNodes[p][b]
 //@   requires forall i int :: 0 <= i && i < len(sortedNodes) ==> sortedNodes[i] != ""
